@@ -96,8 +96,20 @@ def canon(w: c20.World):
         "tcs": [{"times": [int(t) for t in tc.times], "ems": [{"len": len(e), "dt": c20._layout_name(e.dtype)} for e in tc.emulsions]} for tc in w.tcs],
         "trks": [{"times": [int(t) for t in tr.times], "len": len(tr.droplets)} for tr in w.trks],
         "tls": [[1 + next(i for i, tr in enumerate(w.trks) if tr is x) for x in tl] for tl in w.tls],
+        "files": [_file_state(w, p) for p in (1, 2)],
         "narr": narr,
     }
+
+
+def _file_state(w, p):
+    import h5py
+
+    path = w.path(p)
+    if not os.path.exists(path):
+        return {"kind": "none", "nsets": 0}
+    with h5py.File(path, "r") as fp:
+        n = len(fp)
+    return {"kind": w.file_kind[p], "nsets": n}
 
 
 def dim_of(d):
@@ -180,6 +192,19 @@ def candidates(w: c20.World, rng):
             ops.append({"op": "TcIndex", "c": c, "i": rng.randint(1, len(tc.emulsions))})
         if len(tc.emulsions):
             ops.append({"op": "TcClear", "c": c})
+    p = rng.randint(1, 2)
+    if ne:
+        ops.append({"op": "EmSave", "e": rng.randint(1, ne), "p": p})
+    if w.file_kind[p] == "em" and ne < MAXEV:
+        ops.append({"op": "EmLoad", "p": p})
+    if w.tcs:
+        ops.append({"op": "TcSave", "c": rng.randint(1, len(w.tcs)), "p": p})
+    if w.file_kind[p] == "tc" and len(w.tcs) < MAXTCS:
+        ops.append({"op": "TcLoad", "p": p})
+    if w.trks:
+        ops.append({"op": "TrkSave", "k": rng.randint(1, len(w.trks)), "p": p})
+    if w.file_kind[p] == "trk" and len(w.trks) < MAXTRKS:
+        ops.append({"op": "TrkLoad", "p": p})
     if len(w.trks) < MAXTRKS:
         if rng.random() < 0.5:
             ops.append({"op": "TrkNew", "L": L, "times": [], "explicit": False})
@@ -227,6 +252,7 @@ def record(seed, length):
         except core.MachineryError:
             break  # left the lattice (e.g. a non-integer width): the log ends here
         events.append({"o": o, "e": err, "obs": obs})
+    w.cleanup()
     return {"init": init, "events": events, "seed": seed}
 
 
